@@ -5,7 +5,7 @@
    regenerated guard obligations (coq/Gen/C13/Guards.v) fail.  Whole-compiler totality is NOT a theorem: it is
    searched over the property's own quantifier (every single-token edit of every corpus program) by c13.py. *)
 From Coq Require Import ZArith NArith List Bool String.
-From JMCV Require Import Model.Tok Model.TokPos Model.TokGuards Proofs.Tok Proofs.TokGuards.
+From JMCV Require Import Model.Tok Model.TokPos Model.TokGuards Proofs.Tok Proofs.TokGuards Proofs.TokProps.
 Import ListNotations.
 Open Scope Z_scope.
 
@@ -16,10 +16,7 @@ Open Scope Z_scope.
 Theorem C13_tok_total : forall uni printable alms es asemi s line col,
   (exists progs, parse uni printable alms es asemi s line col = Ok progs) \/
   (exists d l c, parse uni printable alms es asemi s line col = Diag d l c).
-Proof.
-  intros. destruct (parse uni printable alms es asemi s line col) eqn:E; eauto.
-  exfalso. eapply parse_never_crashes; eauto.
-Qed.
+Proof. exact p_C13_tok_total. Qed.
 Print Assumptions C13_tok_total.
 
 (* Each character is consumed exactly once, left to right: running the loop on a ++ b is running it on a,
@@ -40,7 +37,7 @@ Print Assumptions C13_tok_nonempty.
 (* Before fixes/C09-bad-escape.patch (`parse_gen _ false`): ast.literal_eval's rejection escaped. *)
 Theorem C13_pinned_literal_refuted : forall uni printable,
   parse_gen uni false printable false true false (of_string "say ""\x"";"%string) 1 1 = Crash PySyntaxError.
-Proof. intros. vm_compute. reflexivity. Qed.
+Proof. exact p_C13_pinned_literal_refuted. Qed.
 Print Assumptions C13_pinned_literal_refuted.
 
 (* What a regenerated guard obligation  `facts -> - len <= idx /\ idx < len`  is worth: Python's l[idx]
@@ -48,7 +45,7 @@ Print Assumptions C13_pinned_literal_refuted.
 Theorem C13_guard_sound : forall (A : Type) (l : list A) idx,
   (- zlen l <= idx /\ idx < zlen l -> exists x, py_index l idx = Ok x /\ In x l) /\
   (~ (- zlen l <= idx /\ idx < zlen l) -> py_index l idx = Crash IndexError).
-Proof. intros. split; [apply py_index_ok|apply py_index_raises]. Qed.
+Proof. exact p_C13_guard_sound. Qed.
 Print Assumptions C13_guard_sound.
 
 (* ... and the length facts the translator writes after the list operations it tracks. *)
@@ -56,9 +53,7 @@ Theorem C13_guard_facts : forall (A : Type) (l : list A) (x : A) k i,
   (0 <= k -> zlen (py_from l k) = Z.max 0 (zlen l - k)) /\
   (- zlen l <= i /\ i < zlen l -> exists l', py_del l i = Ok l' /\ zlen l' = zlen l - 1) /\
   zlen (py_append l x) = zlen l + 1 /\ zlen (py_insert l i x) = zlen l + 1.
-Proof.
-  intros. split; [apply py_from_len|]. split; [apply py_del_len|]. split; [apply py_append_len|apply py_insert_len].
-Qed.
+Proof. exact p_C13_guard_facts. Qed.
 Print Assumptions C13_guard_facts.
 
 (* Non-vacuity: the tokenizer does report diagnostics and does return statements. *)
